@@ -53,6 +53,23 @@ func (s *Store) validateCommand(req *pb.RaftCmdRequest) (*peer.Peer, manifest.Re
 	return peer, meta, nil, nil
 }
 
+// admitAtApply repeats the epoch and key-range checks of validateCommand against the region
+// as it is when a committed command is about to be executed. Every replica applies the log in
+// the same order, so they all reach the same decision.
+func (s *Store) admitAtApply(req *pb.RaftCmdRequest) *pb.RegionError {
+	if s == nil || req == nil || req.GetHeader().GetRegionId() == 0 {
+		return nil
+	}
+	meta, ok := s.RegionMetaByID(req.GetHeader().GetRegionId())
+	if !ok {
+		return epochNotMatchError(nil)
+	}
+	if err := validateRegionEpoch(req.GetHeader().GetRegionEpoch(), meta); err != nil {
+		return err
+	}
+	return validateRequestKeys(meta, req)
+}
+
 // ProposeCommand submits a raft command to the leader hosting the target
 // region. When the store is not leader or the request header is invalid the
 // returned response includes an appropriate RegionError.
